@@ -35,7 +35,9 @@ make_row_group.{empty_frame_returns_None_without_writing, nonempty_frame_returns
   chunk_num_values_is_num_rows, schema_loop.invariant_*}
 iter_dataframe[int|None|list].{chunk.one_slice_per_offset, chunk.starts_at_its_offset_first_at_0, chunk.slices_adjacent_last_open_ended,
   chunk.slices_ordered, zero_offsets_yield_the_whole_frame, no_slice_outside_the_loop, does_not_raise (only if a raising path exists)}
-Known findings on the unchanged tree (contracts/findings.jsonl): C02-P-codec-dict-compression-without-type, C02-P-encoding-stats-page-type-v2.
+Findings (contracts/findings.jsonl), all repaired in /repo: fixed-C02-codec-dict-without-type (097e962), fixed-C02-codec-empty-dict (f55586c),
+fixed-C02-encoding-stats-page-type-v2 (3c1bc42).  The two '[compression is not ...]' companions of the codec obligations are kept: they say
+in which region a future refutation of the main obligation lies.
 """
 import ast
 import itertools
@@ -1114,6 +1116,12 @@ def h_upper(eng, p, args, kw, node):
     return [(p, Opaque(("call", ".upper", next(eng.counter))))]
 
 
+def h_bool(eng, p, args, kw, node):
+    if len(args) != 1:
+        raise Unsupported("bool() shape")
+    return [(p, PyB(eng.truth(args[0], p)))]
+
+
 def wc_handlers(W):
     def h_rows_per_page(eng, p, args, kw, node):
         return [(p, PyI(W.rpp))]
@@ -1153,7 +1161,7 @@ def wc_handlers(W):
         return [(p, PyI(k))]
 
     return {"_rows_per_page": h_rows_per_page, "range": h_range, "zip": h_zip, "make_definitions": h_make_definitions,
-            "compress_data": h_compress, "write_thrift": h_write_thrift, "getattr": h_getattr, ".upper": h_upper}
+            "compress_data": h_compress, "write_thrift": h_write_thrift, "getattr": h_getattr, ".upper": h_upper, "bool": h_bool}
 
 
 def discharge_qf(obligs, timeout):
@@ -1428,9 +1436,12 @@ def run_write_column(ctx, funcs, timeout, dpv):
                 stt, m, secs = solve(rp + [E, z3.Not(goal)], timeout)
                 n_codec += 1
                 res.add(f"{tag}.{nm}", stt, short_model(m), secs, "z3", note)
-                # the same claim outside the region of the known finding (a dict-form compression spec without the key 'type')
+                # the same claim outside the region of fixed-C02-codec-dict-without-type (a dict-form compression spec without the key 'type')
                 stt, m, secs = solve(rp + [E, z3.Not(z3.And(W.comp.dict, z3.Not(W.comp.has_type))), z3.Not(goal)], timeout)
                 res.add(f"{tag}.{nm}[compression is not a dict lacking 'type']", stt, short_model(m), secs, "z3", note)
+                # ... and outside the region of fixed-C02-codec-empty-dict (compression == {})
+                stt, m, secs = solve(rp + [E, z3.Not(z3.And(W.comp.dict, z3.Not(W.comp.truthy))), z3.Not(goal)], timeout)
+                res.add(f"{tag}.{nm}[compression is not an empty dict]", stt, short_model(m), secs, "z3", note)
     else:
         res.add(f"{tag}.page.payload_codec_is_colmeta_codec", UNKNOWN, None, 0.0, "engine", "no returning path with a codec field")
     # ---- discharge
